@@ -243,7 +243,7 @@ def stage_real_classes(ctx):
     """C04 on the real spawn classes, in the states where Expecter.eof() / timeout() build their diagnostic message from
     str(spawn): the raised class is exactly TIMEOUT / EOF, a listed marker gives its index with before = pending text and
     after = the class, EOF is reported again (at once) by every later call, and str(spawn) itself never fails"""
-    import os, socket, time as rt
+    import os, re, socket, time as rt
     import pexpect
     from pexpect import pxssh, fdpexpect, popen_spawn, socket_pexpect, EOF, TIMEOUT
     n = 0
@@ -278,6 +278,11 @@ def stage_real_classes(ctx):
                 call('timeout listed', lambda: p.expect([conv('zz'), TIMEOUT], timeout=0.05), want_ret=1)
                 if p.after is not TIMEOUT:
                     problems.append('after a TIMEOUT index, after is %r' % (p.after,))
+                # the time has already run out when the call starts (a negative timeout other than the -1 sentinel, e.g. deadline - now computed late):
+                # TIMEOUT at once, never an error from the system call underneath
+                call('expect, time already run out', lambda: p.expect(conv('zz'), timeout=-0.25), want_exc=TIMEOUT, limit=1.0)
+                call('expect_exact, time already run out, TIMEOUT listed', lambda: p.expect_exact([conv('zz'), TIMEOUT], timeout=-3), want_ret=1, limit=1.0)
+                call('expect_list, time already run out', lambda: p.expect_list([re.compile(conv('zz'))], timeout=-0.001), want_exc=TIMEOUT, limit=1.0)
                 yield_eof = True
                 p._verif_end()
             else:
